@@ -26,6 +26,8 @@ META = {
 
 META['explanation'] += ' ' + 'R6: header line spellings over the ParserText model - name case, SP / HTAB runs after the colon and before the CRLF, for both line parsers. R7: SPF network composer. R8: SPF mechanism names (with and without qualifier), version and modifier names over case patterns, and the term loop over 0..3 trailing spaces.'
 META['explanation'] += ' ' + "R10: media type parser evaluated on case patterns. R11: string enumerations whose tokens the specification matches case-insensitively (reviewed table with citations in sa/specs/text.json): the class's _code_eq is evaluated."
+
+META['explanation'] += ' ' + 'R12: quoted components evaluated through the real compose and _parse (quoted and unquoted spelling, base64 with the real codec).'
 HERE = os.path.dirname(os.path.dirname(os.path.abspath(__file__)))
 
 
